@@ -5,7 +5,7 @@ from tools.framework import Case, Err
 from harness.common import *
 from harness.c06 import FORMULA, spec_notes_of
 from mingus.containers import Note, NoteContainer
-from mingus.core import progressions
+from mingus.core import progressions, chords
 
 ID = "C12"
 LEAN_MODULES = ["Mingus.Props.C12", "Mingus.Tie.C12"]
@@ -231,6 +231,9 @@ def cases(tier, rng):
     for key in ["C", "F#", "Eb", "a", "c#", "ab", "d", "A", "D"]:
         for num in ["I", "ii", "iii7", "IV", "V7", "bVII", "#ivdim7", "VIm7", "X", "i", "III", "vi7"]:
             yield Case("nc.from_progression", [num, key], "from_progression", kind=("prog",))
+    # slash chords and polychords into a container: a note NAME that occurs twice in the shorthand's notes is voiced twice
+    for sh in ["C/E", "Am/C", "G7/B", "C/G", "Dm7/A", "C|G", "Am|C", "C|C", "Dm|G7", "F/F", "CM7/B", "Em|CM7"]:
+        yield Case("nc.from_chord", [sh], "from_chord/slash-poly", kind=("chordsh",))
     # membership and equality, also on a container that is empty from the start or has been emptied again
     probes = [["C", 4], ["B#", 3], ["E", 4], ["Fb", 4], ["G", 9], ["C", 0]]
     for items, removed in (([], []), ([["C", 4]], [["C", 4]]), ([["C", 4], ["E", 4]], [["E", 4], ["B#", 3]]), ([["C", 4]], []),
@@ -418,6 +421,22 @@ def oracle(c, obs):
         held = {pitch(n, o) for n, o in items} - gone
         want = [len(held), [pitch(n, o) in held for n, o in probes], not held, not held]
         return None if obs == want else "length / membership / equality with the empty container do not follow the content (want %s)" % (want,)
+    if kind[0] == "chordsh":
+        if isinstance(obs, Err):
+            return "constructor raised"
+        names = chords.from_shorthand(c["args"][0])        # (chord construction itself is C06's business)
+        # voiced upward: each name at or above the previous top note, less than an octave above it, starting in octave 4
+        want, top = [], None
+        for nm in names:
+            o = 4 if top is None else top // 12
+            p = pitch(nm, o)
+            if top is not None:
+                while p < top:
+                    o += 1; p = pitch(nm, o)
+            if top is None or p != top:
+                want.append([nm, o])
+            top = p
+        return None if obs == want else "container built from %r is %s, expected the chord's notes %s voiced upward from octave 4" % (c["args"][0], obs, want)
     if kind[0] == "chord":
         _, r, k = kind
         want_names = spec_notes_of(r, k)
